@@ -5,7 +5,7 @@
 From Coq Require Import List NArith ZArith Bool Arith.
 From Verif Require Import Harness.
 From VerifModel Require Import C20 C18.
-From VerifProof Require Import C18Header C18Ints C18Prims C18Field C18Proofs.
+From VerifProof Require Import C18Header C18Ints C18Prims C18Field C18Proofs C18Idem C18Example.
 Import ListNotations.
 
 (* the header: parseTagAndLength inverts appendTagAndLength (base-128 tag numbers, long-form lengths) *)
@@ -68,7 +68,7 @@ Print Assumptions C18_utctime_roundtrip.
    a written Flag = true, omitted fields = their default) and no byte is left.
    MISSING (outside [dom]): RawValue fields, structs that start with a RawContent field, SET OF (the `set`
    parameter on a slice / SET-named slice types: sorting of the element encodings); these are covered by the
-   correspondence run and the oracle only.  Re-marshalling: see C18_remarshal below. *)
+   correspondence run and the oracle only.  Re-marshalling and value equality: C18_marshal_roundtrip_partial. *)
 Theorem C18_unmarshal_marshal_partial : forall p t v bs,
   dom p t v -> marshal p t v = Some bs -> unmarshal false p t bs = Some (norm p t v, 0%N).
 Proof. exact unmarshal_marshal. Qed.
@@ -81,3 +81,31 @@ Theorem C18_field_roundtrip_partial : forall t p v bs rest,
   parse_field false p t (bs ++ rest) = Some (norm p t v, rest).
 Proof. exact (proj1 roundtrip_all). Qed.
 Print Assumptions C18_field_roundtrip_partial.
+
+(* re-marshalling: Marshal of the decoded value reproduces the bytes, for canonical values ([canon]: decoding does not
+   move a field across the "omitted" line — an empty omitempty slice is nil, a written value does not decode to the
+   default) *)
+Theorem C18_remarshal_partial : forall p t v bs,
+  dom p t v -> canon p t v -> marshal p t v = Some bs ->
+  unmarshal false p t bs = Some (norm p t v, 0%N) /\ marshal p t (norm p t v) = Some bs.
+Proof. exact remarshal. Qed.
+Print Assumptions C18_remarshal_partial.
+
+(* the three sentences of the property together (same domain; _partial for the same missing constructors):
+   Marshal, strict Unmarshal, Marshal again: every byte consumed, the decoded value equals the original up to
+   [veq] (times compared to the second, nil = empty []byte / BitString / slice), and the bytes are reproduced.
+   [flags_ok]: a Flag that is written is true ("set to true if present"). *)
+Theorem C18_marshal_roundtrip_partial : forall p t v bs,
+  dom p t v -> canon p t v -> flags_ok p t v -> marshal p t v = Some bs ->
+  exists v', unmarshal false p t bs = Some (v', 0%N) /\ veq t v' v /\ marshal p t v' = Some bs.
+Proof. exact marshal_roundtrip. Qed.
+Print Assumptions C18_marshal_roundtrip_partial.
+
+(* non-vacuity: struct { A int `optional,default:5`; B bool `private,explicit,tag:2`; C []int32 } = {5, true, [7,-1]}
+   satisfies dom, canon and flags_ok; Marshal gives 30 0d e2 03 01 01 ff 30 06 02 01 07 02 01 ff *)
+Theorem C18_example :
+  dom no_params ex_ty ex_val /\ canon no_params ex_ty ex_val /\ flags_ok no_params ex_ty ex_val
+  /\ marshal no_params ex_ty ex_val = Some ex_bytes
+  /\ unmarshal false no_params ex_ty ex_bytes = Some (ex_val, 0%N).
+Proof. exact example_roundtrip. Qed.
+Print Assumptions C18_example.
